@@ -102,10 +102,12 @@ func (b *Broker) doHeartBeat(ctx context.Context, id string) {
 		}
 		return newValue
 	})
-	ctx, cancel := context.WithTimeout(ctx, b.HeartBeat)
+	// the heart beat runs on a clock of its own: ctx belongs to the request that delivered the
+	// messages (often a publisher's) and ends with that request.
+	timer, cancel := context.WithTimeout(context.Background(), b.HeartBeat)
 	defer cancel()
 	select {
-	case <-ctx.Done():
+	case <-timer.Done():
 		if topics, ok := b.messages.Load(id); ok {
 			topics := topics.(*sync.Map)
 			topics.Range(func(key, value interface{}) bool {
